@@ -211,11 +211,20 @@ def run_once(case, mask):
             answers.append((i, ("ok", plain_real(res[1])) if res[0] == "ok" else res))
             # uncached cells execute on every call
             key = tuple(x for x in op[1] if isinstance(x, str)) + (op[2],)
-            if res[0] == "ok" and uncached_now.get(key) and all(isinstance(x, str) for x in op[1]):
+            if res[0] == "ok" and uncached_now.get(key):
                 try:
                     live = real.space(key[:-1]).cells[key[-1]].is_cached
                 except Exception:
                     live = True
+                if not all(isinstance(x, str) for x in op[1]):
+                    # the same cells inside an instance has the flag of the cells it was made from
+                    try:
+                        inst = real.ctx(tup(op[1])).cells[op[2]].is_cached
+                    except Exception:
+                        inst = live
+                    if inst != live:
+                        return answers, ("instance-flag", "step %d: %r: is_cached is %r in the instance, %r in its base "
+                                                          "space" % (i, op, inst, live))
                 # (a derived copy that took the place of the flagged cells follows its definer's flag)
                 if not ticks and not live:       # (tick names are those at definition time: compare by count only)
                     return answers, ("uncached-not-executed", "step %d: %r returned without running its formula "
